@@ -78,6 +78,7 @@ def initial_arm_region(b, field):
 
 
 def run(ctx):
+    a5_credentials_not_process_wide(ctx)
     prog = ctx.prog
     bodies = [b for b in prog.prod_bodies() if "::_" not in b.defp]
     decs = [b for b in prog.methods_of_trait_impls("Decoder", "decode") if b.defp.startswith("octo_squirrel_server")]
@@ -413,3 +414,14 @@ def run(ctx):
             parts = o.key.split("|")
             ctx.ob("A4", parts[1], parts[2], o.where, o.ok or o.verdict == "reviewed-safe", o.detail)
     ctx.floor("A4", "datagram cipher cache key obligations (imported from C12 N4)", 1, n4)
+
+
+def a5_credentials_not_process_wide(ctx):
+    """A5: what a listener accepts is decided by ITS configuration entry. A single process-wide slot (a static that is not a keyed table)
+    filled from one entry's configuration hands that entry's credentials to every other listener of the process."""
+    from .common import single_slot_static_fills
+    fills = single_slot_static_fills(ctx.prog)
+    for (it, b, t, reason) in fills:
+        ctx.ob("A5", b.defp, f"credential-state-is-per-listener:{last_seg(it['path'])}", loc(t["sp"]), reason is None,
+               reason or f"static {last_seg(it['path'])} is filled with a value that has no run-time input")
+    ctx.ob("A5", "workspace", "single-slot-statics-inventoried", "-", True, f"{len(fills)} fill site(s) of single-slot statics", nontrivial=False, ordinal=False)
